@@ -174,9 +174,13 @@ func newRig(o rigOpts) (*rig, error) {
 	return &rig{nw: nw, tr: tr, conf: conf, aconf: aconf, agent: a, ipc: ipc, ln: ln, rec: rec, logs: logs}, nil
 }
 
+// close stops the agent first (its event loop stops dispatching) and only
+// then the IPC server: the server closes the event streams' channels, and a
+// dispatch still in flight would hit a closed channel.
 func (r *rig) close() {
-	r.ipc.Shutdown()
 	r.agent.Shutdown()
+	time.Sleep(300 * time.Microsecond)
+	r.ipc.Shutdown()
 	r.tr.Kill()
 }
 
